@@ -152,9 +152,11 @@ def run(prog, rep):
     f = prog.lib_fn("mc_utils::get_extended_symbolic_graph")
     if f is not None:
         rep.functions.add(f.qual)
-        s = eng.summary(f)
+        # (private helpers of the module are inlined; its public functions stay symbols)
+        pubs = [g_.path for g_ in prog.lib_fns() if g_.path.startswith("mc_utils::") and g_.vis == "Public"]
+        s = terms.Engine(prog, inline=True, hooks=E.Hooks(["mc_utils::"], opaque_names=pubs)).summary(f)
         pn = f.param_names()
-        ctxs = [x for x in s.sites if x.kind == "call" and x.is_call_to("with_extra_state_variables")]
+        ctxs = [x for x in s.all_sites() if x.kind == "call" and x.is_call_to("with_extra_state_variables")]
         bn, num = ("param", pn[0]), ("param", pn[1])
         good = len(ctxs) == 1 and ctxs[0].args[0] == bn
         if good:
